@@ -1,7 +1,7 @@
 PROP = dict(
     id="C13",
     lean_modules=["TongoProofs.C13"],
-    gen=[],
+    gen=["PoolSeqno"],
     # for these ops the Lean driver evaluates the SPECIFICATION (specSelect, proved equal to the model of the repaired
     # updateBest in C13.select_spec): a mismatch is a violation with the line as failing input
     spec_ops=("select.",),
